@@ -14,7 +14,11 @@ focus = ''
 if rnd:
     k = (ord(rnd[0]) - ord('a')) % len(mechs)
     m = mechs[k]
-    if rnd[0] >= 'e':
+    if rnd[0] >= 'f':
+        k = (ord(rnd[0]) - ord('a') + 3) % len(mechs)
+        m = mechs[k]
+        focus = '\n  Focus: put your change in or around this mechanism of the implementation: %s (%s). Prefer a fault whose only symptom is a silently wrong value or a silently different state (no error message, no exception, nothing printed) on a secondary path to the same mechanism: the less common spelling of a statement or function (for example the file, printer or device form of an output statement, the form with optional arguments omitted or all given, the variant for another numeric type or for array elements instead of scalars), a memo/cache or a precomputed table with a slightly wrong key, or a value that passes through two conversions. Avoid the primary, everyday path: assume it is tested thoroughly.' % (m.get('name'), m.get('where'))
+    elif rnd[0] >= 'e':
         k = (ord(rnd[0]) - ord('a') + 2) % len(mechs)
         m = mechs[k]
         focus = '\n  Focus: put your change in or around this mechanism of the implementation: %s (%s). Prefer a fault at a boundary or in a rarely taken branch that looks equivalent to the main one: a limit value (0, 1, 255, 256, 32767, the last row/column/record, an empty string, file or program), an alternate entry point to the same mechanism (the Session API versus BASIC statements, direct mode versus a program line, the same file through another device or mode, another syntax/dialect option or video adapter), or an error path (the state that is left behind when an operation is refused or fails half-way).' % (m.get('name'), m.get('where'))
